@@ -1368,7 +1368,16 @@ def _inline_helpers(tree, modname, ref, log):
                                 isinstance(x, ast.Name) for x in
                                 tnames + rnames) and all(
                                     x.id in stored for x in rnames) and \
-                                len({x.id for x in rnames}) == len(rnames):
+                                len({x.id for x in rnames}) == len(rnames) \
+                                and all(
+                                    # a returned local that is a re-bound
+                                    # parameter starts with the argument's
+                                    # value: it may become the target only
+                                    # when the argument IS the target
+                                    r_.id not in binding or (isinstance(
+                                        binding[r_.id], ast.Name) and
+                                        binding[r_.id].id == t_.id)
+                                    for t_, r_ in zip(tnames, rnames)):
                             hnames = set()
                             for s_ in hb:
                                 hnames |= _names(s_)
@@ -1381,6 +1390,11 @@ def _inline_helpers(tree, modname, ref, log):
                                 for t_, r_ in zip(tnames, rnames):
                                     ren[r_.id] = t_.id
                                 direct = True
+                                # `t = t` left over from binding a re-bound
+                                # parameter to the target itself
+                                pre = [p_ for p_ in pre if p_.targets[0].id
+                                       not in {tag + r_.id for r_ in rnames
+                                               if r_.id in binding}]
 
                     class R(ast.NodeTransformer):
                         def visit_Name(self, node):
@@ -2478,6 +2492,133 @@ def _inline_literal_tuples(fn, rf, log, q):
     ast.fix_missing_locations(fn)
 
 
+def _fold_test(t):
+    """Truth-value simplification of a test that contains the literals True /
+    False (left behind when a helper's flag parameter was bound to a literal
+    argument).  Only the truth value of the result matters to the caller, so
+    `True and X` -> X; `False and X` -> False (X is not evaluated in either
+    form); operands in front of the literal are kept and still evaluated."""
+    if isinstance(t, ast.UnaryOp) and isinstance(t.op, ast.Not):
+        o = _fold_test(t.operand)
+        if isinstance(o, ast.Constant) and isinstance(o.value, bool):
+            return ast.copy_location(ast.Constant(value=not o.value), t)
+        if isinstance(o, ast.UnaryOp) and isinstance(o.op, ast.Not) and \
+                _always_bool(o.operand):
+            return o.operand            # not (not <genuine bool>)
+        if isinstance(o, ast.Compare) and len(o.ops) == 1 and isinstance(
+                o.ops[0], (ast.In, ast.NotIn, ast.Is, ast.IsNot)) and \
+                o is not t.operand:
+            return _negate_exact(o)     # only where something was folded
+        t.operand = o
+        return t
+    if isinstance(t, ast.BoolOp):
+        is_and = isinstance(t.op, ast.And)
+        vals = []
+        for v in t.values:
+            v = _fold_test(v)
+            if isinstance(v, ast.Constant) and isinstance(v.value, bool):
+                if v.value == is_and:
+                    continue            # neutral element
+                vals.append(v)          # absorbing: nothing after it runs
+                break
+            vals.append(v)
+        if not vals:
+            return ast.copy_location(ast.Constant(value=is_and), t)
+        if len(vals) == 1:
+            return vals[0]
+        t.values = vals
+        return t
+    return t
+
+
+def _fold_constant_tests(fn, log, q):
+    """`if <test with literal True/False>` simplified; `if True: A else: B`
+    -> A, `if False: A else: B` -> B (exact: a literal has no effect).  A
+    `while` header is left alone (`while True` is an idiom)."""
+    n = [0]
+
+    def has_bool_const(t):
+        return any(isinstance(x, ast.Constant) and isinstance(x.value, bool)
+                   for x in ast.walk(t))
+
+    def rec(stmts):
+        i = 0
+        while i < len(stmts):
+            st = stmts[i]
+            if isinstance(st, (ast.FunctionDef, ast.AsyncFunctionDef,
+                               ast.ClassDef)):
+                i += 1
+                continue
+            if isinstance(st, ast.If) and has_bool_const(st.test):
+                # literals in call arguments etc. are not tests: fold only
+                # along not / and / or from the top of the test
+                st.test = _fold_test(st.test)
+                if isinstance(st.test, ast.Constant) and isinstance(
+                        st.test.value, bool):
+                    repl = st.body if st.test.value else st.orelse
+                    if _jump(repl) and i + 1 < len(stmts):
+                        # never turn the statements behind the `if` into
+                        # dead code: a rule that looks at them would no
+                        # longer see the (constant) condition that skips them
+                        i += 1
+                        continue
+                    stmts[i:i + 1] = repl
+                    n[0] += 1
+                    continue
+            for f in ('body', 'orelse', 'finalbody'):
+                b = getattr(st, f, None)
+                if isinstance(b, list) and b and isinstance(b[0], ast.stmt):
+                    rec(b)
+                    if not b and f == 'body':
+                        b.append(ast.copy_location(ast.Pass(), st))
+            if isinstance(st, ast.Try):
+                for h in st.handlers:
+                    rec(h.body)
+                    if not h.body:
+                        h.body.append(ast.copy_location(ast.Pass(), st))
+            i += 1
+    before = ast.dump(fn)
+    rec(fn.body)
+    if not fn.body:
+        fn.body.append(ast.Pass())
+    if ast.dump(fn) != before:
+        log.append('%s: literal True/False in %s test(s) folded'
+                   % (q, 'if'))
+    ast.fix_missing_locations(fn)
+
+
+def _callee_loop_towards_ref(st, items, rf):
+    """`for m in (self.a, self.b, ...): m(args)` -- a loop over a display of
+    callables (bound methods / functions named by pure look-ups) whose
+    variable is used only as the callee: the size limit of the unroller does
+    not apply when every call the unrolled copies make is a call the recorded
+    function makes itself (text of the whole call in its call multiset), i.e.
+    the loop is a bundling of recorded call statements."""
+    if not isinstance(st.target, ast.Name) or not (1 <= len(items) <= 16):
+        return False
+    v = st.target.id
+    if not all(isinstance(e, (ast.Attribute, ast.Name)) and _pure_lookup(e)
+               for e in items):
+        return False
+    callee_ids = {id(c.func) for s_ in st.body for c in ast.walk(s_)
+                  if isinstance(c, ast.Call) and isinstance(c.func, ast.Name)
+                  and c.func.id == v}
+    occ = [x for s_ in st.body for x in ast.walk(s_)
+           if isinstance(x, ast.Name) and x.id == v]
+    if not occ or any(id(x) not in callee_ids for x in occ):
+        return False
+    ref_calls = rf.get('calls', {})
+    for e in items:
+        for s_ in st.body:
+            for c in ast.walk(s_):
+                if isinstance(c, ast.Call) and id(c.func) in callee_ids:
+                    cp = copy.deepcopy(c)
+                    cp.func = copy.deepcopy(e)
+                    if _n(cp) not in ref_calls:
+                        return False
+    return True
+
+
 def _filtered_list_truth_uses(fn, h, loop, g0):
     """`L = [x for x in (A, B, C) if c(x)]` read by `for v in L` (`loop`):
     the other reads of L, as [(holder node, field)], when every one of them
@@ -2541,6 +2682,37 @@ def _filtered_list_truth_uses(fn, h, loop, g0):
 
 
 def _unroll_literal_loops(fn, rf, log, q):
+    # to a fixpoint: a copy may contain a loop that is literal only now (the
+    # iterable was a loop variable of the unrolled loop), and a loop around
+    # an unrolled one may have lost the `continue` that kept it from being
+    # unrolled
+    for _ in range(6):
+        n0 = len(log)
+        _unroll_literal_loops_once(fn, rf, log, q)
+        if len(log) == n0:
+            break
+
+
+def _star_split(target):
+    """(names before the starred element, its name, names after) of a tuple
+    target `a, *rest, z` with plain names; None otherwise."""
+    if not isinstance(target, ast.Tuple):
+        return None
+    st = [k for k, e in enumerate(target.elts) if isinstance(e, ast.Starred)]
+    if len(st) != 1 or not isinstance(target.elts[st[0]].value, ast.Name):
+        return None
+    pre, post = target.elts[:st[0]], target.elts[st[0] + 1:]
+    if not all(isinstance(e, ast.Name) for e in pre + post):
+        return None
+    names = [e.id for e in pre] + [target.elts[st[0]].value.id] + \
+        [e.id for e in post]
+    if len(set(names)) != len(names):
+        return None
+    return [e.id for e in pre], target.elts[st[0]].value.id, \
+        [e.id for e in post]
+
+
+def _unroll_literal_loops_once(fn, rf, log, q):
     ref_loops = {i for t, i in rf.get('loops', [])}
     for blk in _blocks(fn):
         i = 0
@@ -2576,13 +2748,33 @@ def _unroll_literal_loops(fn, rf, log, q):
                 tnames = [st.target.id] if isinstance(st.target, ast.Name) \
                     else [e.id for e in st.target.elts
                           if isinstance(e, ast.Name)]
+                star = _star_split(st.target)
+                if star is not None:
+                    tnames = star[0] + [star[1]] + star[2]
                 body = _guard_continues(st.body) if items is not None \
                     else None
                 ok = items is not None and body is not None and \
-                    1 <= len(items) <= 4 and tnames and not (
+                    (0 <= len(items) <= 4 or _callee_loop_towards_ref(
+                        st, items, rf)) and tnames and not (
                         set(tnames) & _names(ast.Module(
                             body=st.body, type_ignores=[]), ast.Store))
-                if ok and isinstance(st.target, ast.Tuple):
+                if ok and star is not None:
+                    # `for a, *rest, z in ((..), (..))`: every item is a
+                    # display with enough elements; `rest` is a fresh list
+                    # per iteration -- it may be replaced by a list display
+                    # only where the object itself is unobservable: every
+                    # occurrence in the body is the iterable of a `for`
+                    iters = {id(x.iter) for s_ in st.body
+                             for x in ast.walk(s_) if isinstance(x, ast.For)}
+                    occ = [x for s_ in st.body for x in ast.walk(s_)
+                           if isinstance(x, ast.Name) and x.id == star[1]]
+                    ok = all(isinstance(c_, (ast.Tuple, ast.List)) and
+                             len(c_.elts) >= len(star[0]) + len(star[2]) and
+                             not any(isinstance(e_, ast.Starred)
+                                     for e_ in c_.elts)
+                             for c_ in items) and all(
+                                 id(x) in iters for x in occ)
+                elif ok and isinstance(st.target, ast.Tuple):
                     ok = len(tnames) == len(st.target.elts) and all(
                         isinstance(c_, (ast.Tuple, ast.List)) and
                         len(c_.elts) == len(tnames) for c_ in items)
@@ -2608,6 +2800,14 @@ def _unroll_literal_loops(fn, rf, log, q):
                         sub = {tnames[0]: c_} if isinstance(
                             st.target, ast.Name) else dict(zip(tnames,
                                                                c_.elts))
+                        if star is not None:
+                            npre, npost = len(star[0]), len(star[2])
+                            sub = dict(zip(star[0], c_.elts[:npre]))
+                            sub.update(zip(star[2], c_.elts[len(c_.elts)
+                                                            - npost:]))
+                            sub[star[1]] = ast.List(
+                                elts=list(c_.elts[npre:len(c_.elts) - npost]),
+                                ctx=ast.Load())
                         ren = {n_: '%s__%d' % (n_, k) for n_ in blocal}
                         copies = []
                         for s_ in body:
@@ -2623,7 +2823,9 @@ def _unroll_literal_loops(fn, rf, log, q):
                             copies = [ast.copy_location(ast.If(
                                 test=cond, body=copies, orelse=[]), st)]
                         new += copies
-                    blk[i:i + 1] = new
+                    blk[i:i + 1] = new or (
+                        [ast.copy_location(ast.Pass(), st)]
+                        if len(blk) == 1 else [])
                     if filtered_local is not None:
                         fb, fk, fs = filtered_local
                         if fs in fb:
@@ -2646,6 +2848,38 @@ def _unroll_literal_loops(fn, rf, log, q):
                     continue
             i += 1
     ast.fix_missing_locations(fn)
+
+
+def _fuse_rebound_lookups(fn, rf, log, q):
+    """`x = A; x = x[k]`  ->  `x = A[k]` for two adjacent plain bindings of a
+    local the reference does not know, A and the second value both pure
+    look-ups (attribute / subscript chains): a walk down a container written
+    as repeated re-binding (typically an unrolled `for k in path: x = x[k]`).
+    Exact: A has no effect and is evaluated once in both forms."""
+    known = set(rf.get('locals', [])) | set(rf.get('params', []))
+    n = 0
+    for blk in _blocks(fn):
+        i = 0
+        while i + 1 < len(blk):
+            a, b = blk[i], blk[i + 1]
+            if isinstance(a, ast.Assign) and isinstance(b, ast.Assign) and \
+                    len(a.targets) == 1 and len(b.targets) == 1 and \
+                    isinstance(a.targets[0], ast.Name) and \
+                    isinstance(b.targets[0], ast.Name) and \
+                    a.targets[0].id == b.targets[0].id and \
+                    a.targets[0].id not in known and \
+                    _pure_lookup(a.value) and _pure_lookup(b.value) and \
+                    not isinstance(b.value, ast.Name) and \
+                    a.targets[0].id in _names(b.value):
+                b.value = _Subst({a.targets[0].id: a.value}).visit(b.value)
+                del blk[i]
+                n += 1
+                continue
+            i += 1
+    if n:
+        log.append('%s: %d re-bound look-up step(s) `x = A; x = x[k]` fused'
+                   % (q, n))
+        ast.fix_missing_locations(fn)
 
 
 def _exposed_simple(body):
@@ -3213,6 +3447,117 @@ def _inline_hoisted(fn, rf, log, q):
                 break
         if not done:
             return
+    ast.fix_missing_locations(fn)
+
+
+def _locals_forwarded_to_attrs(fn, rf, log, q):
+    """`a, b = E; self.x = a; self.y = b; ... a ... b ...`  ->
+    `self.x, self.y = E; ... self.x ... self.y ...` (also the one-name form
+    `a = E; self.x = a`).  A local the reference does not know that is bound
+    once and stored, by the statement(s) directly after its binding, into an
+    attribute of `self` is that attribute under another name as long as the
+    attribute is stored nowhere else in the function (same assumption as the
+    hoisted-lookup step: a look-up on self is pure and repeatable).  Side
+    conditions: the forwarding statements follow the binding without anything
+    in between and in the order of the bound names (so the attribute stores
+    happen in the same order as those of the tuple target); every read of
+    the local comes after its forwarding statement, in that block, outside
+    lambdas / nested functions; only towards the recorded form: the recorded
+    function mentions `self.x`."""
+    known = set(rf.get('locals', [])) | set(rf.get('params', []))
+    ref_text = ' '.join([t for t, _e, _j in rf.get('tests', [])] +
+                        list(rf.get('calls', {})) + rf.get('stores', []) +
+                        [d for ds in rf.get('defs', {}).values() for d in ds])
+
+    def attr_text_stores(text):
+        return [x for x in ast.walk(fn) if isinstance(x, ast.Attribute) and
+                isinstance(x.ctx, (ast.Store, ast.Del)) and _n(x) == text]
+
+    changed = True
+    while changed:
+        changed = False
+        for blk in _blocks(fn):
+            for i, st in enumerate(blk):
+                if not (isinstance(st, ast.Assign) and len(st.targets) == 1):
+                    continue
+                tg = st.targets[0]
+                slots = [tg] if isinstance(tg, ast.Name) else (
+                    list(tg.elts) if isinstance(tg, ast.Tuple) else [])
+                names = [e.id if isinstance(e, ast.Name) else None
+                         for e in slots]
+                if not any(names) or len(set(names)) != len(names):
+                    continue
+                last_slot = -1
+                j = i + 1
+                plan = []
+                while j < len(blk):
+                    fw = blk[j]
+                    if not (isinstance(fw, ast.Assign) and len(fw.targets) == 1
+                            and isinstance(fw.targets[0], ast.Attribute)
+                            and isinstance(fw.targets[0].value, ast.Name)
+                            and fw.targets[0].value.id == 'self'
+                            and isinstance(fw.value, ast.Name)
+                            and fw.value.id in names):
+                        break
+                    k = names.index(fw.value.id)
+                    if k <= last_slot or not all(
+                            isinstance(e, ast.Name) for e in slots[k + 1:]):
+                        break           # would reorder the attribute stores
+                    last_slot = k
+                    plan.append((k, fw))
+                    j += 1
+                if not plan:
+                    continue
+                later = blk[j:]
+                inside = set()
+                for s_ in later:
+                    inside |= {id(x) for x in ast.walk(s_)}
+                deferred = set()
+                for x in ast.walk(fn):
+                    if x is not fn and isinstance(x, (
+                            ast.Lambda, ast.FunctionDef,
+                            ast.AsyncFunctionDef, ast.ClassDef)):
+                        deferred |= {id(y) for y in ast.walk(x)}
+                ok = True
+                for k, fw in plan:
+                    x_ = names[k]
+                    text = _n(fw.targets[0])
+                    occ = [n for n in ast.walk(fn) if isinstance(n, ast.Name)
+                           and n.id == x_]
+                    loads = [n for n in occ if isinstance(n.ctx, ast.Load)
+                             and n is not fw.value]
+                    if x_ in known or len(occ) != len(loads) + 2 or \
+                            any(id(n) not in inside or id(n) in deferred
+                                for n in loads) or \
+                            len(attr_text_stores(text)) != 1 or \
+                            text not in ref_text or \
+                            x_ in [a.arg for a in ast.walk(fn.args)
+                                   if isinstance(a, ast.arg)]:
+                        ok = False
+                if not ok:
+                    continue
+                for k, fw in plan:
+                    x_ = names[k]
+                    attr = fw.targets[0]
+                    new_t = ast.copy_location(ast.Attribute(
+                        value=ast.Name(id='self', ctx=ast.Load()),
+                        attr=attr.attr, ctx=ast.Store()), slots[k])
+                    if isinstance(tg, ast.Name):
+                        st.targets[0] = new_t
+                    else:
+                        tg.elts[k] = new_t
+                    rd = ast.Attribute(value=ast.Name(id='self',
+                                                      ctx=ast.Load()),
+                                       attr=attr.attr, ctx=ast.Load())
+                    for m_, s_ in enumerate(later):
+                        later[m_] = _Subst({x_: rd}).visit(s_)
+                    log.append('%s: local %s forwarded to %s replaced by the '
+                               'attribute' % (q, x_, _n(attr)))
+                blk[i + 1:] = later
+                changed = True
+                break
+            if changed:
+                break
     ast.fix_missing_locations(fn)
 
 
@@ -4704,6 +5049,168 @@ def _split_fused_updates(fn, rf, log, q):
     ast.fix_missing_locations(fn)
 
 
+def _selects_to_default_and_override(fn, rf, log, q):
+    """`x = D if c else E`  ->  `x = D; if not c: x = E`  (and the mirrored
+    `x = E if c else D`  ->  `x = D; if c: x = E`) where D is a plain name:
+    a default that a condition overrides, written as one conditional
+    expression.  Exact: loading a bound name has no effect, c and E are
+    evaluated as before (c first, E only when selected) and neither reads x.
+    Side conditions: D is a parameter or is bound by a statement of the
+    function's top-level block in front of this one (so the unconditional
+    load cannot fail); only towards the recorded form: the reference has the
+    else-less, jump-free `if` with exactly that test and records E as the
+    definition of a local."""
+    ref_tests = {t[0] for t in rf.get('tests', []) if not t[1] and not t[2]}
+    ref_def_texts = {d for ds in rf.get('defs', {}).values() for d in ds}
+    if not ref_tests:
+        return
+    params = {a.arg for a in ast.walk(fn.args) if isinstance(a, ast.arg)}
+    for blk in _blocks(fn):
+        k = 0
+        while k < len(blk):
+            st = blk[k]
+            k += 1
+            if not (isinstance(st, ast.Assign) and len(st.targets) == 1 and
+                    isinstance(st.targets[0], ast.Name) and
+                    isinstance(st.value, ast.IfExp)):
+                continue
+            x = st.targets[0].id
+            c, a_, b_ = st.value.test, st.value.body, st.value.orelse
+            for dflt, other, cond in ((a_, b_, _negate_exact(c)),
+                                      (b_, a_, c)):
+                if not isinstance(dflt, ast.Name) or dflt.id == x or \
+                        x in _names(c) | _names(other):
+                    continue
+                if _n(cond) not in ref_tests or \
+                        _n(other) not in ref_def_texts:
+                    continue
+                bound = dflt.id in params
+                for s_ in fn.body:
+                    if s_.lineno >= st.lineno:
+                        break
+                    if isinstance(s_, (ast.FunctionDef, ast.ClassDef)) and \
+                            s_.name == dflt.id:
+                        bound = True
+                    if isinstance(s_, ast.Assign) and any(
+                            isinstance(t, ast.Name) and t.id == dflt.id
+                            for t in s_.targets):
+                        bound = True
+                if not bound:
+                    continue
+                first = ast.copy_location(ast.Assign(
+                    targets=[ast.Name(id=x, ctx=ast.Store())], value=dflt),
+                    st)
+                setter = ast.copy_location(ast.Assign(
+                    targets=[ast.Name(id=x, ctx=ast.Store())], value=other),
+                    st)
+                cnd = ast.copy_location(ast.If(
+                    test=cond, body=[setter], orelse=[]), st)
+                blk[k - 1:k] = [first, cnd]
+                k += 1
+                log.append('%s: conditional expression `%s = %s` restored to '
+                           'default `%s = %s` + `if %s: %s = ...`'
+                           % (q, x, _n(st.value)[:60], x, dflt.id, _n(cond),
+                              x))
+                break
+    ast.fix_missing_locations(fn)
+
+
+def _sink_shared_store(fn, rf, log, q):
+    """A store shared by the branches of an if / elif / else chain
+
+        if a: v = E1            if a: T[E1]
+        elif b: v = E2; ...  -> elif b: v = E2; ...; T[v]
+        else: continue          else: continue
+        T[v]
+
+    is copied to the end of every branch that can complete (tail
+    duplication: control reaches T exactly from the end of those branches,
+    the chain has an explicit else, so the copies run exactly when T ran).
+    In a branch whose last statement is `v = E` with E a pure look-up read
+    once by T, the copy reads E directly and the binding is dropped (v is
+    read by T only).  Applied only towards the recorded form: T is one
+    subscript / attribute store, v is a local bound in every completing
+    branch and nowhere else, every call the copies make is a call of the
+    recorded function (text in its call multiset) and at least one of them
+    is missing from the current function."""
+    ref_calls = rf.get('calls', {})
+    if not ref_calls:
+        return
+
+    def leaves(node, out):
+        out.append(node.body)
+        if len(node.orelse) == 1 and isinstance(node.orelse[0], ast.If):
+            leaves(node.orelse[0], out)
+        else:
+            out.append(node.orelse)
+
+    for blk in _blocks(fn):
+        k = 0
+        while k + 1 < len(blk):
+            st, tail = blk[k], blk[k + 1]
+            k += 1
+            if not (isinstance(st, ast.If) and isinstance(tail, ast.Assign)
+                    and len(tail.targets) == 1 and isinstance(
+                        tail.targets[0], (ast.Subscript, ast.Attribute))):
+                continue
+            brs = []
+            leaves(st, brs)
+            if any(not b for b in brs):
+                continue                    # no explicit else
+            live = [b for b in brs if not _jump(b)]
+            if len(live) < 2:
+                continue
+            cands = []
+            for v in sorted(_names(tail, ast.Load)):
+                binds = [s_ for b in live for s_ in b if isinstance(
+                    s_, ast.Assign) and len(s_.targets) == 1 and isinstance(
+                        s_.targets[0], ast.Name) and s_.targets[0].id == v]
+                occ = [x for x in ast.walk(fn) if isinstance(x, ast.Name)
+                       and x.id == v]
+                stores = [x for x in occ if not isinstance(x.ctx, ast.Load)]
+                loads = [x for x in occ if isinstance(x.ctx, ast.Load)]
+                in_tail = {id(x) for x in ast.walk(tail)}
+                if len(binds) == len(live) == len(stores) and all(
+                        sum(1 for s_ in b if s_ in binds) == 1
+                        for b in live) and loads and all(
+                            id(x) in in_tail for x in loads):
+                    cands.append((v, len(loads)))
+            if len(cands) != 1:
+                continue
+            v, nloads = cands[0]
+            new_brs = []
+            for b in live:
+                cp = copy.deepcopy(tail)
+                last = b[-1]
+                if nloads == 1 and isinstance(last, ast.Assign) and len(
+                        last.targets) == 1 and isinstance(
+                            last.targets[0], ast.Name) and \
+                        last.targets[0].id == v and _pure_lookup(last.value):
+                    cp = _Subst({v: last.value}).visit(cp)
+                    new_brs.append((b, b[:-1] + [cp], cp))
+                else:
+                    new_brs.append((b, b + [cp], cp))
+            # towards the recorded form only: every call of the copies is a
+            # recorded call, and at least one of them is a recorded call the
+            # current function does not make yet (a chain + shared store that
+            # the recorded function has itself is left alone)
+            new_calls = {_n(c_) for _b, _nb, cp in new_brs
+                         for c_ in ast.walk(cp) if isinstance(c_, ast.Call)}
+            cur_calls = {_n(c_) for c_ in _own_nodes(fn)
+                         if isinstance(c_, ast.Call)}
+            if not new_calls or not all(c_ in ref_calls for c_ in new_calls) \
+                    or not (new_calls - cur_calls):
+                continue
+            for b, nb, _cp in new_brs:
+                b[:] = nb
+            del blk[k]
+            log.append('%s: store `%s` shared by the branches of `if %s` '
+                       'copied into the %d branches that reach it'
+                       % (q, _n(tail.targets[0])[:70], _n(st.test)[:60],
+                          len(live)))
+    ast.fix_missing_locations(fn)
+
+
 def _always_bool(e):
     """Expressions whose value is a genuine bool whatever the operands:
     identity and membership tests, `not <anything>`."""
@@ -5247,13 +5754,16 @@ def canonicalise(tree, modname, text=None):
         if not helpers_inlined and describe(fn) == rf:
             continue            # unchanged forms: nothing to rewrite
         n0 = len(log)
+        _fold_constant_tests(fn, log, q)
         _sink_selected_callee(fn, rf, log, q)
         _inline_hoisted(fn, rf, log, q)
         # a callee that was reached through a hoisted alias is named now
         _KwToPos(_signatures(_core.REPO)).visit(fn)
+        _locals_forwarded_to_attrs(fn, rf, log, q)
         _inline_literal_iterables(fn, rf, log, q)
         _pipeline_to_locals(fn, rf, log, q)
         _flags_from_tests(fn, rf, log, q)
+        _selects_to_default_and_override(fn, rf, log, q)
         _rebind_params(fn, rf, log, q)
         _search_loops_to_flags(fn, rf, log, q)
         _cached_last_elements(fn, rf, log, q)
@@ -5263,6 +5773,10 @@ def canonicalise(tree, modname, text=None):
         _loops_to_comprehensions(fn, rf, log, q)
         _inline_literal_tuples(fn, rf, log, q)
         _unroll_literal_loops(fn, rf, log, q)
+        n1 = len(log)
+        _fuse_rebound_lookups(fn, rf, log, q)
+        if len(log) > n1:
+            _inline_hoisted(fn, rf, log, q)
         _const_attr_access(fn, log, q)
         _conjunction_ifs(fn, rf, log, q)
         _orient_ifs(fn, rf, log, q)
@@ -5283,6 +5797,7 @@ def canonicalise(tree, modname, text=None):
         _comprehension_vars_to_reference(fn, rf, log, q)
         # loop headers over locals that only now carry their recorded names
         _loops_to_reference(fn, rf, log, q)
+        _sink_shared_store(fn, rf, log, q)
         _rehoist(fn, rf, log, q)
         _index_to_unpack(fn, rf, log, q)
         _split_fused_updates(fn, rf, log, q)
